@@ -7,6 +7,7 @@ import Ogen.JsonEqualDriver
 import Ogen.IntRoundTrip_proof
 import Ogen.RouterDriver
 import Ogen.SecurityHandler_proof
+import Ogen.ValidateModel_proof
 
 /-! Line-protocol driver over all executable models: `<model> <payload>` per line, one
     canonical output line per input line. Core-only (no Mathlib) so it links natively. -/
@@ -40,6 +41,10 @@ def dispatch (line : String) : String :=
     | "bparse" => IntRT.bparseLine payload
     | "sec" => Sec.secLine payload
     | "bitset" => Sec.bitsetLine payload
+    | "vint" => ValidateM.vintLine payload
+    | "vlen" => ValidateM.vlenLine payload
+    | "vprops" => ValidateM.vpropsLine payload
+    | "vuniq" => ValidateM.vuniqLine payload
     | "jeq" => JEqDrv.runLine payload
     | "enum" => JEqDrv.enumLine payload
     | _ => "bad-model"
